@@ -251,6 +251,14 @@ def counter_discipline(ctx, rep):
         rep.ob(rule, "advance | increment bounded by the assert", goal_ok,
                "`*initialized_ += n` is dominated by assert!(initialized + n <= buffer.len())" if goal_ok else
                "the store to *initialized_ in advance is not bounded by buffer.len()", adv.loc())
+    # the two asserts are exact: advance demands initialized + n <= len (filling the buffer completely is allowed),
+    # cap_at demands an untouched view (initialized == 0)
+    from .common import asserted_relations, want_relations
+    want_relations(rep, rule, "advance | assert is `initialized + n <= buffer.len()`", [r for r, ln in asserted_relations(adv, air)],
+                   [("initialized_", "Le", "len(")], adv.loc(), "advance asserts the new split point is inside the buffer, the end included")
+    cap = prog.one(B + "BufferRef::cap_at")
+    want_relations(rep, rule, "cap_at | assert is `initialized == 0`", [r for r, ln in asserted_relations(cap, IR(cap))],
+                   [("initialized_", "Eq", 0)], cap.loc(), "cap_at asserts the view is untouched")
     # extend: each += 1 is in the loop, after a successful next() of the iterator over buffer[init..]
     ext = prog.one(B + "BufferRef::extend")
     eir = IR(ext)
